@@ -31,7 +31,9 @@ prop("C10", True,
 
 EVAL_NOTE = ("Trusts the harness's reference evaluator xref (XPath 1.0 sections 2-4 written from the recommendation over the "
              "harness's own document model; no code shared with xsel; it evaluates generated ASTs, never expression text) and "
-             "the locator's structural node identity. Open known findings exclude exactly the named behaviour.")
+             "the locator's structural node identity. Open known findings exclude exactly the named behaviour. One differential "
+             "case in three also goes through the ExecAsString/ExecAsNumber/ExecAsNodeset helpers, which must equal the XPath "
+             "conversions of the same result.")
 
 prop("C01", True,
      "property-based testing (rapid): differential against a reference XPath evaluator over generated documents x every context node x all 13 axes, plus implementation-only partition/duality/root laws",
@@ -46,13 +48,13 @@ prop("C02", True,
      "cases = (document, predicate-bearing path or filter expression, bindings). Non-trivial = a predicate saw >= 2 candidates after a step with >= 2 context nodes, or sits on a reverse axis, or its numeric value is non-integral/NaN, or a path continues after a filter expression; distinct by (expression text, document).")
 prop("C03", True,
      "property-based testing (rapid): validity predicate on returned node-set slices + union algebra between separately executed queries",
-     "Generated search: overlapping and direction-mixing node-set expressions (//x/.., ancestor::*/@*, reverse axis feeding forward/attribute/namespace steps, unions; guided walks with predicates from mixed-kind node-set variables and parenthesised unions) from drawn context nodes; every returned slice is checked to contain only nodes of the queried document, no node twice, strictly monotone document order (ascending without reverse axis and for unions); A|B = B|A, (A|B)|C = A|(B|C), A|A = A and count(A|B) = count(A)+count(B)-common are checked between separately executed queries. The slice predicate is additionally applied to every node-set any other check obtains.",
+     "Generated search: overlapping and direction-mixing node-set expressions (//x/.., ancestor::*/@*, reverse axis feeding forward/attribute/namespace steps, unions; guided walks with predicates from mixed-kind node-set variables and parenthesised unions; name tests on the namespace axis; a user function returning the parents of its context nodes as the last step) from drawn context nodes; every returned slice is checked to contain only nodes of the queried document, no node twice, strictly monotone document order (ascending without reverse axis and for unions); A|B = B|A, (A|B)|C = A|(B|C), A|A = A and count(A|B) = count(A)+count(B)-common and ((((A|B)|C)|A)|C)|B = (A|B)|C are checked between separately executed queries. The slice predicate is additionally applied to every node-set any other check obtains.",
      "Node identity is the locator's structural bijection, not Pos(). Order among one element's attributes/namespace nodes follows the store's list order; caller-ordered variables are not required to come back sorted.",
      "5.3",
      "cases = (document, context node, three node-set expressions A, B, C). Non-trivial = operands overlap, or a step produced duplicate candidates, or a reverse axis feeds a further step; distinct by (A, B, C, context node, document).")
 prop("C04", True,
      "property-based testing (rapid): differential of conversions against the reference (grammar-based string->number, shortest round-tripping number->string) + round-trip oracle + GetCursorString on every node",
-     "Generated search: doubles (rapid.Float64 mixed with a boundary pool), strings (numeral grammar and its near misses, arbitrary Unicode) and node-sets of every kind and order are converted explicitly (string/number/boolean), implicitly (operands, arguments, predicates) and through the returned Result's String()/Number()/Bool(); results are compared with the reference conversions, number(string(x)) = x is checked, and xsel.GetCursorString is compared with the model's string-value for every node of generated documents.",
+     "Generated search: doubles (rapid.Float64 mixed with a boundary pool), strings (numeral grammar and its near misses, arbitrary Unicode) and node-sets of every kind and order are converted explicitly (string/number/boolean), implicitly (operands of arithmetic, relational and boolean operators, every argument position of the core library functions, predicates) and through the returned Result's String()/Number()/Bool() and the ExecAs* helpers; results are compared with the reference conversions, number(string(x)) = x is checked, and xsel.GetCursorString is compared with the model's string-value for every node of generated documents.",
      EVAL_NOTE, "5.4",
      "cases = (source value, conversion site). Non-trivial = the source is in one of the named value classes other than plain integers/plain strings (negative zero, NaN, infinities, subnormal, >2^63, <1e-7, whitespace-padded numeral, exponent/plus/hex/Infinity/NaN-looking strings, empty/reverse-ordered/mixed-content node-sets, every node kind); distinct by (class, conversion, expected value).")
 prop("C05", True,
@@ -62,13 +64,13 @@ prop("C05", True,
      "cases = (left operand, operator, right operand). Non-trivial = an operand is a node-set of size != 1, a NaN, a whitespace-padded numeral, or the pair orders differently numerically and lexicographically; distinct by (operator, both operand values). The matrix part is exhaustive over the stated pool (noted in evidence), the random part is sampled.")
 prop("C06", True,
      "property-based testing (rapid): differential of arithmetic and numeric functions against IEEE-754 reference arithmetic; any error is a violation",
-     "Generated search: pairs of doubles (rapid.Float64 mixed with a boundary pool: non-integers, negatives, zeros, |x|<1, |x|>2^63, ties, NaN, infinities) under + - * div mod, unary minus chains, floor/ceiling/round, compound expressions, literal operand forms, node-set operands of the binary operators and of unary minus delivered by reverse axes, ancestor steps and caller-ordered variables (number() of a node-set is that of its first node in document order), and sum()/count() over nodes with fractional, negative, padded, non-numeric and out-of-range (+-Infinity, underflowing) numerals (also delivered by a reverse axis); results compared NaN-aware with Go float64 arithmetic (math.Mod for mod). Any error from these operations is a violation.",
+     "Generated search: pairs of doubles (rapid.Float64 mixed with a boundary pool: non-integers, negatives, zeros, |x|<1, |x|>2^63, ties, NaN, infinities) under + - * div mod, unary minus chains, floor/ceiling/round, compound expressions, literal operand forms, node-set, boolean and string operands of the binary operators and of unary minus (node-sets delivered by reverse axes, ancestor steps and caller-ordered variables; boolean functions, variables and comparisons; numeric and non-numeric strings) (number() of a node-set is that of its first node in document order), and sum()/count() over nodes with fractional, negative, padded, non-numeric and out-of-range (+-Infinity, underflowing) numerals (also delivered by a reverse axis); results compared NaN-aware with Go float64 arithmetic (math.Mod for mod). Any error from these operations is a violation.",
      EVAL_NOTE + " Sums whose terms are not exactly representable are discarded (addition order is not fixed by the property). The sign of a zero result is only observed through a literal zero divisor.",
      "5.6",
      "cases = (operation, operand values). Non-trivial = an operand is not an integer-valued finite double (fraction, huge, zero, NaN, infinity) or a rounding tie; distinct by (operation class, operand values).")
 prop("C07", True,
      "property-based testing (rapid): differential of the string functions against a rune-based reference + UTF-8 validity + substring-before/after identity",
-     "Generated search: Unicode strings (ASCII, 2/3/4-byte characters, combining marks, XML and non-XML whitespace, empty) and numeric bounds (fractions, negatives, NaN, infinities, huge) bound to variables or written as literals are fed to substring (2 and 3 arguments), string-length, normalize-space, translate (overlapping, repeated, shorter/longer maps), concat, starts-with, contains, substring-before/after and the zero-argument forms; results are compared with the reference working on code points and IEEE comparisons.",
+     "Generated search: Unicode strings (ASCII, 2/3/4-byte characters, combining marks, XML and non-XML whitespace, empty, 33-300 characters long) and numeric bounds (fractions, negatives, NaN, infinities, huge, the doubles next to .5 and the odd integers above 2^52) bound to variables or written as literals are fed to substring (2 and 3 arguments), string-length, normalize-space, translate (overlapping, repeated, shorter/longer maps), concat (2-14 arguments), starts-with, contains, substring-before/after and the zero-argument forms from context nodes of every kind (element, attribute, text, comment, processing instruction, namespace, root); results are compared with the reference working on code points and IEEE comparisons.",
      EVAL_NOTE, "5.7",
      "cases = (function, argument values). Non-trivial = an argument has a multi-byte character, or the translate map overlaps/repeats/differs in length, or there are inner whitespace runs, or a bound is non-integral/NaN/infinite; distinct by (function, arguments).")
 prop("C08", True,
@@ -85,23 +87,23 @@ prop("C09", True,
      "cases = (abstract document, serialisation) and malformed byte strings. Non-trivial = the document declares a prefix or default namespace and its serialisation uses at least one of CDATA, a reference, a non-UTF-8 encoding, an XML declaration, a DOCTYPE, a prolog/epilog node, default-namespace undeclaration, or overrides an inherited prefix; distinct by the serialised bytes.")
 prop("C11", True,
      "property-based testing (rapid): differential under generated binding environments, prefix-renaming metamorphic relation, instrumented user functions, unbound-reference errors",
-     "Generated search: binding environments (aliases, prefixes colliding with the document's, prefixes spelling axis names, namespaced variables reachable through two prefixes) x expressions with prefixed name tests, variables and calls are compared with the reference given the same environment; consistently renaming query prefixes and rebuilding the document with different prefixes must not change results; $v must return exactly the bound value (type, content, order) for all four types; an instrumented user function - also when registered under a builtin's name - must be called once per context node with the evaluated arguments in order, Context.Result() the one-node node-set and ContextPosition() the 0-based index; evaluated references to unbound prefixes, variables and functions must fail - also near misses: a core function's local name behind a bound prefix, a function or variable bound under another expanded name than the one referenced.",
+     "Generated search: binding environments (aliases, prefixes colliding with the document's, prefixes spelling axis names, namespaced variables reachable through two prefixes) x expressions with prefixed name tests, variables and calls are compared with the reference given the same environment; consistently renaming query prefixes and rebuilding the document with different prefixes must not change results; $v must return exactly the bound value (type, content, order) for all four types; an instrumented user function - also when registered under a builtin's name - must be called once per context node with the evaluated arguments in order, Context.Result() the one-node node-set and ContextPosition() the 0-based index; evaluated references to unbound prefixes, variables and functions must fail - the same bindings given to Unmarshal must reach a struct tag that calls the function; variables whose local name is spelled like their prefix ($x:x, $child:child); also near misses: a core function's local name behind a bound prefix, a function or variable bound under another expanded name than the one referenced.",
      EVAL_NOTE, "5.11",
      "cases = (environment, expression, document). Non-trivial = a prefixed name test or namespaced variable is used (diff), every renaming case, every typed variable case, functions that are namespaced or shadow a builtin, every unbound-reference form; distinct by (expression, environment, document).")
 prop("C12", True,
      "property-based testing (rapid): differential of name()/local-name()/namespace-uri()/count()/lang() against the reference from every context node",
-     "Generated search: every node of every kind as context node x the three name functions without argument, with node-set variables, reverse-axis arguments and generated paths, count() of node-sets and of non-node-sets (error required); lang(L) from every node of documents whose xml:lang attributes come from a tag grammar (equal, case-different, equal only under Unicode case folding - which must not match -, prefix-with-hyphen, prefix-without-hyphen, empty, unrelated; overridden and reset deeper down; a no-namespace 'lang' decoy). Document namespaces include a URI pair whose concatenations with local names collide ({urn:x}a-b vs {urn:xa-}b).",
+     "Generated search: every node of every kind as context node x the three name functions without argument, with node-set variables, reverse-axis arguments and generated paths, count() of node-sets and of non-node-sets (error required); lang(L) from every node of documents whose xml:lang attributes come from a tag grammar (equal, case-different, equal only under Unicode case folding - which must not match -, prefix-with-hyphen, prefix-without-hyphen, empty, unrelated; overridden and reset deeper down; a no-namespace 'lang' decoy and 'lang' attributes of other namespaces before and after the real one). Document namespaces include a URI pair whose concatenations with local names collide ({urn:x}a-b vs {urn:xa-}b).",
      EVAL_NOTE, "5.12",
      "cases = (document, context node, call). Non-trivial = context node is not a no-namespace element, or the result is a {uri}local name, or an error is required; for lang: every (declared tag, queried tag, context kind) relation; distinct by those tuples.")
 prop("C13", True,
      "stateful property-based testing (rapid): generated histories of Exec/re-Exec/sub-slice/rebuild/Unmarshal/caller-side edits over shared trees (two documents), compiled expressions, binding maps and aliased slices, with snapshot invariants after every step",
-     "Generated search: histories of 4-25 operations over one or two documents (the second one of the same shape with other values, or unrelated), 3-6 reused compiled expressions (unions, paths, self steps and predicates over $v/$w, absolute paths inside predicates that depend on variables, prefixed variables and name tests) and bindings that vary between the operations (two namespace maps with the prefixes swapped, two sets of variable values, a prefix bound for one query only; passed either as caller-owned maps or through the With* option functions only); results are held as caller slices, sub-sliced with spare capacity, bound again as $v and $w (also the same slice twice). After every step the harness compares a deep snapshot of the tree (pointer identity, Pos, kind, names, values, list sizes, parents), every held slice including its backing array up to cap, and the binding maps; re-executions and freshly rebuilt expressions must reproduce the recorded result exactly, a namespaced variable must have the value bound under the query's own bindings, and a prefix bound only for an earlier query must be unbound. The caller also edits result slices it holds (reverse, in-place filter, overwrite): later queries must not notice; and Unmarshal into four distinct struct types that share their name and field names must fill each from its own tags whatever was unmarshaled before.",
+     "Generated search: histories of 4-25 operations over one or two documents (the second one of the same shape with other values, or unrelated), 3-6 reused compiled expressions (unions, paths, self steps and predicates over $v/$w, absolute paths inside predicates that depend on variables, prefixed variables and name tests) and bindings that vary between the operations (two namespace maps with the prefixes swapped, two sets of variable values, a prefix bound for one query only; passed either as caller-owned maps or through the With* option functions only); results are held as caller slices, sub-sliced with spare capacity, bound again as $v and $w (also the same slice twice). After every step the harness compares a deep snapshot of the tree (pointer identity, Pos, kind, names, values, list sizes, parents), every held slice including its backing array up to cap, and the binding maps; re-executions and freshly rebuilt expressions must reproduce the recorded result exactly, a namespaced variable must have the value bound under the query's own bindings, and a prefix bound only for an earlier query must be unbound. The caller also edits result slices it holds (reverse, in-place filter, overwrite): later queries must not notice; expressions that render names (name() of namespaced nodes while two prefixes are bound to one URI) or use the implicit xml prefix run on caller-owned maps; and Unmarshal into four distinct struct types that share their name and field names must fill each from its own tags whatever was unmarshaled before.",
      "Results are compared by value and node identity, not by slice identity (returning the caller's slice unchanged is allowed).",
      "5.13",
      "cases = histories. Non-trivial = the history re-executes an earlier triple after other queries ran and some query bound a held slice as $v/$w; distinct by (expressions, operations, document).")
 prop("C16", True,
      "property-based testing (rapid): JSON values mapped directly to the documented tree and compared by parallel walk; truncations and token mutations must return an error",
-     "Generated search: JSON values (objects with duplicate/empty/odd keys, arrays, nested containers up to depth 9 and occasionally wrapped in 60-140 further containers with members following the deep one, empty containers, strings and keys that spell structural characters ('{', ']', ','), strings with escapes and surrogate pairs, numerals incl. -0, exponents, >2^63, subnormal; 1-3 top-level values) rendered with drawn whitespace and escape spellings; the cursor tree must equal the README mapping computed from the value (not from the text): #obj/#arr, member elements in source order, one text node per scalar, siblings never merged; number texts must read back to the same double with minimal digits. Strict prefixes, dropped structural characters and junk insertions that make the text invalid must yield a non-nil error.",
+     "Generated search: JSON values (objects with duplicate/empty/odd keys, arrays, nested containers up to depth 9 and occasionally wrapped in 60-140 further containers with members following the deep one, empty containers, strings and keys that spell structural characters ('{', ']', ',') or look like qualified names, attributes or node tests ('dc:title', 'xmlns:p', '@id', 'text()'), strings with escapes and surrogate pairs, numerals incl. -0, exponents, >2^63, subnormal; 1-3 top-level values) rendered with drawn whitespace and escape spellings; the cursor tree must equal the README mapping computed from the value (not from the text): #obj/#arr, member elements in source order, one text node per scalar, siblings never merged; number texts must read back to the same double with minimal digits. Strict prefixes, dropped structural characters and junk insertions that make the text invalid must yield a non-nil error.",
      "encoding/json's json.Valid / Decoder are used only to discard mutations that happen to stay valid.",
      "5.16",
      "cases = (JSON value(s), rendering) and malformed texts. Non-trivial = depth >= 3 with both container kinds, or an empty container after a key, or a scalar following a container among siblings; malformed: every text; distinct by text.")
@@ -113,31 +115,31 @@ prop("C17", True,
      "cases = HTML texts. Non-trivial = the DOM has >= 8 nodes and at least one of: childless last child, sibling after a depth >= 3 subtree, node after </html>, implied elements, foreign content, template; distinct by text.")
 prop("C18", True,
      "property-based testing (rapid): differential of relative expressions from every node kind (position 1, size 1) + composition law P/R = union of R from each node of P + P/f() = f(P), on the implementation",
-     "Generated search: every node of every kind as starting cursor x relative expressions (all axes incl. those leaving the subtree, predicates, position(), last(), context-dependent functions) compared with the reference evaluated with that context node, position 1, size 1; for independently drawn absolute P and relative R the node-set of P/R from the root must equal the union over n in Exec(root,P) of Exec(n,R); P/f() must equal f(P) for the seven context-dependent builtins; Unmarshal into slices of structs whose tags use position(), last(), name(..), sibling/ancestor counts must give every element the values Exec gives from that element's node.",
+     "Generated search: every node of every kind as starting cursor x relative expressions (all axes incl. those leaving the subtree, predicates, position(), last(), context-dependent functions) compared with the reference evaluated with that context node, position 1, size 1; for independently drawn absolute P and relative R (also split at a '//', written with and without abbreviations) the node-set of P/R from the root must equal the union over n in Exec(root,P) of Exec(n,R); P/f() must equal f(P) for the seven context-dependent builtins; Unmarshal into slices of structs whose tags use position(), last(), name(..), sibling/ancestor counts must give every element the values Exec gives from that element's node.",
      EVAL_NOTE, "5.18",
      "cases = (document, start node, relative expression) and (document, P, R[, f]). Non-trivial = start node is not an element or an axis leaves its subtree; composition: P selects >= 2 nodes and R carries a predicate; distinct by (start kind and shape, expression) resp. (P/R text, document).")
 
 prop("C14", True,
      "property-based stress testing (rapid) under the Go race detector: generated concurrent Exec programs on shared tree/expressions/bindings vs. their serial results; concurrent Unmarshal into struct types nobody used before; race-built CLI -c N vs. per-file blocks",
-     "Generated search: one document, 2-6 compiled expressions (weighted toward unions, paths and predicates over a shared node-set variable bound in caller order), one shared set of binding maps; 2-16 goroutines released by a barrier each run a drawn program of Exec calls for 1-4 rounds (half of the cases on freshly built expressions that were never executed serially; the expression pool calls every builtin with differing arguments); every concurrent result must equal the serial result computed beforehand; 2-16 goroutines Unmarshal the same nodes into a struct type created for the case (reflect.StructOf, 1-9 tagged fields, so anything kept per type is cold) and must get what the serial calls made afterwards get, and the test binary is built with -race (GORACE=halt_on_error: the first report ends the shard and the running case becomes the replay file). CLI: the race-built command runs over generated trees of 10-60 XML/JSON/HTML files (some malformed) plus 2-5 files whose output block is tens of kilobytes, with -c 2/4/16; stdout must be a sequence of exactly the per-file blocks (each obtained by running the tool on that file alone), intact and contiguous, in any order.",
+     "Generated search: one document, 2-6 compiled expressions (weighted toward unions, paths and predicates over a shared node-set variable bound in caller order), one shared set of binding maps; 2-16 goroutines released by a barrier each run a drawn program of Exec calls for 1-4 rounds (half of the cases on freshly built expressions that were never executed serially; the expression pool calls every builtin with differing arguments and holds deeply nested and very long expressions); every concurrent result must equal the serial result computed beforehand; 2-16 goroutines Unmarshal the same nodes into a struct type created for the case (reflect.StructOf, 1-9 tagged fields, so anything kept per type is cold) and must get what the serial calls made afterwards get, and the test binary is built with -race (GORACE=halt_on_error: the first report ends the shard and the running case becomes the replay file). CLI: the race-built command runs over generated trees of 10-60 XML/JSON/HTML files (some malformed) plus 2-5 files whose output block is tens of kilobytes, with -c 2/4/16; stdout must be a sequence of exactly the per-file blocks (each obtained by running the tool on that file alone), intact and contiguous, in any order.",
      "Coverage of interleavings is probabilistic: this family does not own the Go scheduler. The race detector flags unsynchronised conflicting accesses that execute in a run whether or not the bad interleaving happens. A failing schedule is not replayable as such; the replay re-runs the case 100 times under -race.",
      "5.14",
      "cases = concurrent programs (document, expressions, shared $v, goroutines x operations x rounds) and CLI file trees. Non-trivial = >= 2 goroutines execute an expression over the shared node-set variable of >= 2 nodes; CLI: >= 8 files with -a or -m (multi-line blocks); distinct by (expressions, shared variable, goroutine count, document) resp. (flags, tree).")
 prop("C15", True,
      "property-based testing (rapid) + native coverage-guided fuzzing (go test -fuzz, thorough tier): recover-wrapped entry points over valid, mutated and raw expressions and documents",
-     "Generated search: expression strings from six sources (rendered typed ASTs, ill-typed ASTs, invalid-by-construction token mutations, token soup, raw Unicode, every string function over a variable holding arbitrary - also invalid UTF-8 - bytes with boundary positions) with boundary-value numeric and Unicode variables, nil variable values and hostile constants, executed from the root, an element and an attribute of a fixed or generated document; documents from three sources (valid XML/JSON/HTML serialisations, byte-level mutations, raw bytes) through ReadXml/ReadHtml/ReadJson. Every call runs under recover and a generous deadline: a panic, a nil result with a nil error, an unusable tree/result, an 'xpath query panic' error on a well-typed query, or a call that does not terminate twice within 60 s is a violation. Unmarshal is driven with twenty-two kinds of unsupported target (error, never a panic). Thorough adds five native fuzz targets (FuzzExpr, FuzzXml, FuzzHtml, FuzzJson, FuzzPair) with the same oracle inside the target.",
+     "Generated search: expression strings from six sources (rendered typed ASTs, ill-typed ASTs, invalid-by-construction token mutations, token soup, raw Unicode, every string function over a variable holding arbitrary - also invalid UTF-8 - bytes with boundary positions) with boundary-value numeric and Unicode variables, nil variable values and hostile constants, executed from the root, an element and an attribute of a fixed or generated document; documents from three sources (valid XML/JSON/HTML serialisations, byte-level mutations, raw bytes) through ReadXml/ReadHtml/ReadJson. Every call runs under recover and a generous deadline: a panic, a nil result with a nil error, an unusable tree/result, an 'xpath query panic' error on a well-typed query, or a call that does not terminate twice within 60 s is a violation. Unmarshal is driven with thirty kinds of unsupported target (error, never a panic). Thorough adds five native fuzz targets (FuzzExpr, FuzzXml, FuzzHtml, FuzzJson, FuzzPair) with the same oracle inside the target.",
      "Process aborts (fatal errors, stack exhaustion) are seen as a shard dying without a report (exit 2 with the log). Inputs are limited to 64 KiB (documents) and 512 bytes (expressions: parse time grows quadratically with nesting depth, and the fuzzing engine kills a worker whose input runs for 10 s) in the fuzz targets.",
      "5.15",
      "cases = inputs to BuildExpr/Exec/Read*. Non-trivial = expression of >= 3 tokens or document of >= 8 bytes; distinct by input (and variable values).")
 prop("C19", True,
      "property-based testing (rapid): target types built at run time with reflect.StructOf, expected field values recomputed from separate Exec calls and plain conversions, compared deeply",
-     "Generated search: target types built with reflect.StructOf (fields of kind string, bool, all int/uint widths, float32/64, slices of scalars, nested structs, slices of structs and of pointers to structs, pointer depth 0-3 on any tagged field, untagged fields holding sentinels - scalars and untagged named, pointed-to and embedded structs whose own fields carry tags -, tagged pointer fields that point to caller-owned values before the call), passed as *T, **T, ***T and *[]E with node-sets of size 0/1/n; every tagged field must equal its tag's result evaluated from the struct's node and converted per kind, slices one element per node in result order, untagged fields untouched all the way down, pointer fields freshly allocated (the value a field pointed to before the call is unchanged); wrong-shaped results must give an error. Twenty-two unsupported targets (nil, non-pointer struct, nil pointer, pointer to nil pointer, map, array, chan, func, 2-D slice, unexported tagged fields of string, struct, slice and pointer kind and an embedded unexported struct, interface/map/array fields, *int, string, nil inner pointers) must give an error and never panic.",
+     "Generated search: target types built with reflect.StructOf (fields of kind string, bool, all int/uint widths, float32/64, slices of scalars, nested structs, slices of structs and of pointers to structs, pointer depth 0-3 on any tagged field, untagged fields holding sentinels - scalars and untagged named, pointed-to and embedded structs whose own fields carry tags -, tagged pointer fields that point to caller-owned values before the call; slice fields whose tag yields a string, number or boolean), passed as *T, **T, ***T and *[]E with node-sets of size 0/1/n and with 0-6 bindings (variables, a namespace, user functions incl. one shadowing concat) that the tags use; every tagged field must equal its tag's result evaluated from the struct's node and converted per kind, slices one element per node in result order, untagged fields untouched all the way down, pointer fields freshly allocated (the value a field pointed to before the call is unchanged); wrong-shaped results must give an error. Thirty unsupported targets (also complex, uintptr, unsafe.Pointer, func and chan fields, slices of complex and of maps) (nil, non-pointer struct, nil pointer, pointer to nil pointer, map, array, chan, func, 2-D slice, unexported tagged fields of string, struct, slice and pointer kind and an embedded unexported struct, interface/map/array fields, *int, string, nil inner pointers) must give an error and never panic.",
      "The tag results come from xsel.Exec itself (the property defines the field value as that result; C18 checks those results against the reference). Numeric results outside the field's range or NaN for integer fields are implementation-defined in Go and not judged.",
      "5.19",
      "cases = (document, select query, target type) and (unsupported target, result). Non-trivial = the target shape has a pointer, a nested struct or a slice of structs/pointers; every unsupported kind; distinct by (type shape, select).")
 prop("C20", True,
      "property-based testing (rapid) of the built command: generated file trees x flag sets x expressions; expected stdout derived through the library API in-process; -m records re-parsed and compared with the selected subtree",
-     "Generated search: temp trees of 1-6 files (XML from the serialiser, JSON, tag soup; nested directories; odd or missing extensions; malformed files; dangling symlinks; missing arguments; stdin) x flags -a -m -n -r -u -t -s -v -e -c 1 in drawn order x 34 expressions; file and directory arguments also spelled with './', doubled or trailing slashes and '..' segments (node-set, string, number, boolean results, every node kind, namespaces and variables from -s/-v); stdout must equal, byte for byte, the records derived through the library for each processed file in walk order (nothing for empty node-sets, first node or one record per node with -a, 'path: ' prefix unless -n/stdin, where path is the path the tool was told or its cleaned form); with -m every selected node yields one line that parses with ReadXml to a tree equal to the selected subtree (expanded names, attributes, text, comments, PIs); every unreadable/unparsable/untyped input must be named on stderr and must not disturb the other files' output.",
+     "Generated search: temp trees of 1-6 files (XML from the serialiser, JSON, tag soup; nested directories; odd or missing extensions; malformed files; dangling symlinks; missing arguments; stdin) x flags -a -m -n -r -u -t -s -v -e -c 1 in drawn order x 41 expressions (string-length, concat, boolean and a bare predicate over -v values that look like numerals, are blank-padded, empty or contain '='); arguments in drawn order (stdin first, in the middle or last), unusual file names (blanks, colons, quotes, non-ASCII, leading dot) and upper-case extensions; file and directory arguments also spelled with './', doubled or trailing slashes and '..' segments (node-set, string, number, boolean results, every node kind, namespaces and variables from -s/-v); stdout must equal, byte for byte, the records derived through the library for each processed file in walk order (nothing for empty node-sets, first node or one record per node with -a, 'path: ' prefix unless -n/stdin, where path is the path the tool was told or its cleaned form); with -m every selected node yields one line that parses with ReadXml to a tree equal to the selected subtree (expanded names, attributes, text, comments, PIs); every unreadable/unparsable/untyped input must be named on stderr and must not disturb the other files' output.",
      "The binary is rebuilt from /repo for every run. Attribute/namespace records (CLI's own PI notation) and -m over JSON/HTML trees are only checked for shape/no crash. Tests run as root, so unreadable files are simulated by dangling symlinks and missing paths.",
      "5.20",
      "cases = (file tree, flags, expression). Non-trivial = >= 2 files; distinct by (argv, file names and sizes).")
